@@ -10,10 +10,13 @@ Open Scope list_scope.
 (* ================================================================== (a) the codec *)
 
 (* load_memmap (memmap t) = t — for every structure of any depth and width (TensorDict nodes, lazy stacks, tensorclass
-   instances, NonTensorData, NonTensorStack, empty nodes; any dtype of _STRDTYPE2DTYPE, any shape with > 0 elements,
-   in memory or already memory-mapped) whose keys are distinct and are not "shape" / "device" / "_type", whose payloads
-   survive JSON (or go through pickle), saved with memmap / memmap_ / save (copy_existing as needed).
-   The loaded structure is [norm t]: t with, in every node, tensors first and sub-collections after them. *)
+   instances, NonTensorData with any payload and batch size, NonTensorStack of any items, empty nodes; any dtype, any
+   shape INCLUDING 0 elements, in memory or already memory-mapped) whose keys are distinct and are not "shape" /
+   "device" / "_type" (those are refused at save time), saved with memmap / memmap_ / save (copy_existing as needed).
+   The loaded structure is [norm t]: t with, in every node, tensors first and sub-collections after them.
+   This is the statement for /repo with the repairs fixes/C10/D101..D109; before them it needed four more hypotheses
+   (no 0-element tensor, no tuple / set in a payload, no list-valued stack item, NonTensorData as wide as its parent,
+   dtype in the hand-written table) and was refuted outside them. *)
 Theorem C10_decode_encode : forall o t, valid_root o t = true -> bind (encode o t) decode = Ok (norm t).
 Proof. exact decode_encode_lemma. Qed.
 Print Assumptions C10_decode_encode.
@@ -23,10 +26,7 @@ Theorem C10_norm_is_the_same_mapping : forall o t, valid o t = true -> same_mapp
 Proof. exact norm_same_mapping. Qed.
 Print Assumptions C10_norm_is_the_same_mapping.
 
-(* the unrestricted statement is false of the faithful model: /repo really loses these structures (findings D101-D107) *)
-Definition C10_decode_encode_full_statement : Prop :=
-  forall o t, like o = false -> is_leaf t = false -> bind (encode o t) decode = Ok (root_norm t).
-
+(* the inputs that were lost before the repairs are inside the theorem's domain now (former findings D101, D103-D107) *)
 Definition f32 (sh : list nat) (cells : list Z) : td := Leaf {| lshape := sh; ldtype := F32; lcells := cells; lsrc := InMem |}.
 Definition wit_zero_size : td := Node [] [("z", f32 [0; 3] []); ("r", f32 [] [5%Z])].
 Definition wit_reserved : td := Node [2] [("shape", f32 [2] [1%Z; 2%Z]); ("a", f32 [2] [3%Z; 4%Z])].
@@ -36,34 +36,27 @@ Definition wit_stack_of_lists : td := Node [2] [("s", NStack [NData [] (PList [P
 Definition wit_wide_ndata : td := Node [3] [("n", NData [3; 2] (PStr "v"))].
 Definition wit_float8 : td := Node [2] [("x", Leaf {| lshape := [2]; ldtype := F8E5M2; lcells := [0%Z; 1%Z]; lsrc := InMem |})].
 
-Theorem C10_decode_encode_refuted :
-  (* D101 a tensor with 0 elements is dropped *)
-  bind (encode default_opts wit_zero_size) decode = Ok (Node [] [("r", Leaf (loaded_leaf {| lshape := []; ldtype := F32; lcells := [5%Z]; lsrc := InMem |}))])
-  (* D102 an entry named like a metadata field is dropped *)
-  /\ bind (encode default_opts wit_reserved) decode = Ok (Node [2] [("a", Leaf (loaded_leaf {| lshape := [2]; ldtype := F32; lcells := [3%Z; 4%Z]; lsrc := InMem |}))])
-  (* D103 a tuple comes back as a list *)
-  /\ bind (encode default_opts wit_tuple) decode = Ok (Node [] [("n", NData [] (PList [PStr "a"; PInt 1]))])
-  (* D104 a set cannot be saved *)
-  /\ encode default_opts wit_set = Raised ETypeError
-  (* D105 a stack of list payloads comes back as a 2-dimensional stack *)
-  /\ bind (encode default_opts wit_stack_of_lists) decode
-     = Ok (Node [2] [("s", NStack [NStack [NData [] (PInt 1); NData [] (PStr "u")]; NStack [NData [] (PInt 2); NData [] (PStr "v")]])])
-  (* D106 a NonTensorData wider than its parent takes the parent's batch size *)
-  /\ bind (encode default_opts wit_wide_ndata) decode = Ok (Node [3] [("n", NData [3] (PStr "v"))])
-  (* D107 a dtype that is not in the string table cannot be loaded *)
-  /\ bind (encode default_opts wit_float8) decode = Raised EKeyError.
-Proof. repeat split; vm_compute; reflexivity. Qed.
-Print Assumptions C10_decode_encode_refuted.
+Theorem C10_repaired_inputs_roundtrip :
+  Forall (fun t => valid_root default_opts t = true /\ bind (encode default_opts t) decode = Ok (norm t))
+         [wit_zero_size; wit_tuple; wit_set; wit_stack_of_lists; wit_wide_ndata; wit_float8].
+Proof. repeat constructor; apply decode_encode_lemma; reflexivity. Qed.
+Print Assumptions C10_repaired_inputs_roundtrip.
 
-(* saving over a directory that already holds something: stale members of a longer lazy stack and a stale other.pickle
-   are picked up by the loader (findings D108, D109) *)
+(* D102: an entry named like a field of meta.json is refused when saving (and by make_memmap) instead of being lost *)
+Theorem C10_reserved_names_refused : forall o bs k x r files subs,
+  reserved k = true -> save_over o (Node bs ((k, x) :: r)) (Dir files subs) = Raised EValueError.
+Proof. intros o bs k x r files subs H. rewrite save_over_node. cbn [save_ents]. rewrite H. reflexivity. Qed.
+Print Assumptions C10_reserved_names_refused.
+
+(* saving over a directory that already holds something: a shorter lazy stack over a longer one loads its own members,
+   a JSON payload over a pickled one loads the new payload (former findings D108, D109) *)
 Definition lazy_of (n : nat) : td := Lazy 0 (repeat (Node [2] [("a", f32 [2] [1%Z; 2%Z])]) n).
-Theorem C10_resave_refuted :
-  (exists m, bind (bind (encode default_opts (lazy_of 3)) (save_over default_opts (lazy_of 2))) decode = Ok (Lazy 0 m) /\ List.length m = 3)
+Theorem C10_resave_repaired :
+  bind (bind (encode default_opts (lazy_of 3)) (save_over default_opts (lazy_of 2))) decode = Ok (norm (lazy_of 2))
   /\ bind (bind (encode default_opts (Node [] [("n", NData [] (PObj 7))])) (save_over default_opts (Node [] [("n", NData [] (PStr "new"))]))) decode
-     = Ok (Node [] [("n", NData [] (PObj 7))]).
-Proof. split; [eexists; split|]; vm_compute; reflexivity. Qed.
-Print Assumptions C10_resave_refuted.
+     = Ok (Node [] [("n", NData [] (PStr "new"))]).
+Proof. split; vm_compute; reflexivity. Qed.
+Print Assumptions C10_resave_repaired.
 
 (* ================================================================== (b) the writer pool *)
 
@@ -98,15 +91,22 @@ Theorem C10_sequential_is_an_order : forall ts s s', run_tasks_strict ts s = Ok 
 Proof. exact strict_ok_is_pool. Qed.
 Print Assumptions C10_sequential_is_an_order.
 
-(* "whatever the number of writer threads" is false where a task fails (finding S2): sequentially the call raises, with a
-   pool the exception is dropped and the call returns a mapping without the entry *)
+(* S2 — what the CALL returns.  [pool_call_gen fixed]: fixed = false is `concurrent.futures.wait(futures)` alone
+   (worker exceptions are dropped), fixed = true adds `f.result()` for every future.  Model.C10_Sched.fixed_S2 says which
+   one /repo is; both are proved, so flipping that definition breaks nothing here. *)
+Theorem C10_pool_call_repaired : forall o inplace t ts',
+  res_err (pool_call_gen true o inplace t ts') = res_err (run_sequential o inplace t).
+Proof. exact pool_call_repaired_lemma. Qed.
+Print Assumptions C10_pool_call_repaired.
+
 Definition wit_elsewhere : td := Node [2] [("a", Leaf {| lshape := [2]; ldtype := I64; lcells := [1%Z; 2%Z]; lsrc := MMElsewhere |})].
-Theorem C10_pool_swallows_refuted :
-  run_sequential default_opts false wit_elsewhere = Raised ERuntime
+Theorem C10_pool_swallows_when_unrepaired :
+  (forall o inplace t ts', has_reserved t = false -> pool_call_gen false o inplace t ts' = Ok (run_pool o inplace t ts'))
+  /\ run_sequential default_opts false wit_elsewhere = Raised ERuntime
   /\ mget path_eqb ["a"] (dest (run_pool default_opts false wit_elsewhere (tasks_of default_opts wit_elsewhere []))) = None
-  /\ mget floc_eqb ([], FMeta) (fs (run_pool default_opts false wit_elsewhere (tasks_of default_opts wit_elsewhere []))) <> None.
-Proof. repeat split; vm_compute; congruence. Qed.
-Print Assumptions C10_pool_swallows_refuted.
+  /\ pool_call_gen true default_opts false wit_elsewhere (tasks_of default_opts wit_elsewhere []) = Raised ERuntime.
+Proof. split; [exact pool_call_unrepaired_lemma|repeat split; vm_compute; reflexivity]. Qed.
+Print Assumptions C10_pool_swallows_when_unrepaired.
 
 (* stated, not proved: the link between the two halves — the files the submitted tasks write, in any order, are the files
    of [encode].  Every generated case evaluates its instance on the extracted model (command "link" of the dispatch). *)
@@ -143,13 +143,16 @@ Definition ex_tree : td :=
             ("o", NData [2] (PList [PObj 3; PTuple [PInt 1]]));
             ("s", NStack [NData [] (PStr "p"); NData [] (PStr "q")])].
 Example C10_ex_valid : valid_root default_opts ex_tree = true. Proof. reflexivity. Qed.
+Example C10_ex_pool_call : pool_call default_opts false wit_elsewhere (tasks_of default_opts wit_elsewhere [])
+  = if fixed_S2 then Raised ERuntime else Ok (run_pool default_opts false wit_elsewhere (tasks_of default_opts wit_elsewhere [])).
+Proof. vm_compute. reflexivity. Qed.
 Example C10_ex_roundtrip : bind (encode default_opts ex_tree) decode = Ok (norm ex_tree) /\ norm ex_tree <> ex_tree.
 Proof. split; [vm_compute; reflexivity|vm_compute; discriminate]. Qed.
 Example C10_ex_tasks : List.length (tasks_of default_opts ex_tree []) = 17 /\ keys_distinct ex_tree = true
   /\ independent (tasks_of default_opts ex_tree []) = true.
 Proof. repeat split; vm_compute; reflexivity. Qed.
 Example C10_ex_dependent_tasks_do_not_commute :
-  let a := TWrite [] (Ok [(FMeta, CJson JNull)]) in let b := TWrite [] (Ok [(FMeta, CJson (JBool true))]) in
+  let a := TWrite [] (Ok [(FMeta, CJson JNull)]) [] in let b := TWrite [] (Ok [(FMeta, CJson (JBool true))]) [] in
   independent2 a b = false
   /\ mget floc_eqb ([], FMeta) (fs (run_tasks [a; b] init_state)) <> mget floc_eqb ([], FMeta) (fs (run_tasks [b; a] init_state)).
 Proof. split; vm_compute; congruence. Qed.
